@@ -116,6 +116,8 @@ class Scn:
             e["FCLONES_VERIF_MOUNTS"] = "unknown=" + os.path.normpath(self.move_dir).decode("utf-8", "surrogateescape")
         if self.threads:
             e["RAYON_NUM_THREADS"] = str(self.threads)
+        if getattr(self, "tz", None):
+            e["TZ"] = self.tz          # the local UTC offset the report header is written / read with
         return e
 
     def stamp_mtimes(self, rng):
